@@ -550,7 +550,7 @@ impl Prop for C24 {
     fn budget(&self, tier: Tier) -> usize {
         match tier {
             Tier::Quick => 330,
-            Tier::Thorough => 6000,
+            Tier::Thorough => 5000,
             Tier::Search => 2500,
         }
     }
@@ -932,7 +932,13 @@ impl Prop for C24 {
                             ghosts.insert(i.uuid.to_string(), g);
                         }
                     }
-                    Operation::Rewrite { groups, .. } => {
+                    Operation::Rewrite { groups, rewritten_indices, .. } => {
+                        // a remapped index is a new uuid with the same (remapped) entries
+                        for ri in rewritten_indices {
+                            if let Some(g) = ghosts.get(&ri.old_id.to_string()).cloned() {
+                                ghosts.insert(ri.new_id.to_string(), g);
+                            }
+                        }
                         for g in ghosts.values_mut() {
                             for grp in groups {
                                 let keys: Vec<&'static str> = grp.old_fragments.iter().filter_map(|f| g.stale.get(&f.id).copied()).collect();
